@@ -35,8 +35,12 @@ ASSUMPTIONS = [
     "builds it; positions, velocities, interval bounds and query arguments are symbolic reals / ints",
     "histories of 1 (quick) / 2 (thorough) read-only operations chosen symbolically among: occupancy / state / signal "
     "queries of obstacles, the occupancy set of the prediction, scenario-level occupancy / position / state queries, lanelet and "
-    "traffic-light queries, goal checks, == and hash, deepcopy, XML export, protobuf export",
+    "traffic-light queries, further queries (obstacle_by_id, obstacles_by_role_and_type, str(), trajectory / prediction lookups, "
+    "find_lanelet_by_shape, find_most_likely_lanelet_by_state, map_obstacles_to_lanelets, filter_obstacles_in_network, get_obstacles, "
+    "dynamic_obstacle_by_time_step, interpolate_position, orientation_by_position, contains_points, convert_to_polygon, successor "
+    "enumeration, find_planning_problem_by_id), goal checks, == and hash, deepcopy, XML export, protobuf export",
     "observation: public attributes of every state (which attributes exist and their values), goal-lanelet table, lanelet vertices, "
+    "lanelet obstacle registries / types / users / stop line, obstacle and prediction lanelet assignments, scenario id / dt / tags / id pool, "
     "traffic-light cycle, plus the element tree of an XML export and the message tree of a protobuf export",
     "pickling, drawing and rendering run on scenarios with concrete leaves (matplotlib / pickle cannot carry proxies): every discrete "
     "alternative of the scenario is still explored",
@@ -136,6 +140,17 @@ def direct_view(sc, pps):
     for l in sc.lanelet_network.lanelets:
         out.append((l.lanelet_id, leaf(l.left_vertices), leaf(l.center_vertices), leaf(l.right_vertices), leaf(l.predecessor), leaf(l.successor),
                     l.adj_left, l.adj_right, leaf(l.traffic_signs), leaf(l.traffic_lights), l.line_marking_left_vertices, l.line_marking_right_vertices))
+        out.append(("registries", l.lanelet_id, _registry(l.dynamic_obstacles_on_lanelet), leaf(l.static_obstacles_on_lanelet), leaf(l.lanelet_type),
+                    leaf(l.user_one_way), leaf(l.user_bidirectional), l.adj_left_same_direction, l.adj_right_same_direction,
+                    None if l.stop_line is None else (leaf(l.stop_line.start), leaf(l.stop_line.end), l.stop_line.line_marking,
+                                                      leaf(l.stop_line.traffic_sign_ref), leaf(l.stop_line.traffic_light_ref))))
+    out.append(("scenario", str(sc.scenario_id), sc.dt, leaf(sc.tags), sc.author, sc.affiliation, sc.source, ("set",) + tuple(sorted(sc._id_set)),
+                tuple(sorted(o.obstacle_id for o in sc.obstacles))))
+    for o in sc.obstacles:
+        out.append(("assignment", o.obstacle_id, leaf(o.initial_center_lanelet_ids), leaf(o.initial_shape_lanelet_ids)))
+        if isinstance(o, DynamicObstacle) and o.prediction is not None:
+            out.append(("prediction assignment", o.obstacle_id, _registry(o.prediction.center_lanelet_assignment),
+                        _registry(o.prediction.shape_lanelet_assignment), o.prediction.initial_time_step, o.prediction.final_time_step))
     for tl in sc.lanelet_network.traffic_lights:
         cyc = tl.traffic_light_cycle
         out.append((tl.traffic_light_id, leaf(tl.position), tl.active, tl.direction,
@@ -149,6 +164,10 @@ def direct_view(sc, pps):
         out.append((pid, state_view(p.initial_state), tuple(state_view(s) for s in p.goal.state_list),
                     None if table is None else tuple(sorted((k, tuple(v)) for k, v in table.items()))))
     return tuple(out)
+
+
+def _registry(d):
+    return None if d is None else tuple(sorted((k, leaf(v)) for k, v in d.items()))
 
 
 def xml_view(V, sc, pps):
@@ -263,6 +282,43 @@ def op_lanelet_queries(V, sc, pps):
         _quiet(lambda: tl.get_state_at_time_step(t))
 
 
+def op_further_queries(V, sc, pps):
+    """queries of the three containers that the other operations do not reach"""
+    t = 1  # concrete: dictionary lookups need a concrete key
+    net = sc.lanelet_network
+    _quiet(lambda: sc.obstacle_by_id(31))
+    _quiet(lambda: sc.obstacle_by_id(99))
+    _quiet(lambda: sc.obstacles_by_role_and_type())
+    _quiet(lambda: str(sc))
+    for o in sc.obstacles:
+        _quiet(lambda: str(o))
+        _quiet(lambda: str(o.initial_state))
+    for o in sc.dynamic_obstacles:
+        tr = o.prediction.trajectory
+        _quiet(lambda: tr.state_at_time_step(t))
+        _quiet(lambda: tr.final_state)
+        _quiet(lambda: o.prediction.occupancy_at_time_step(t))
+        _quiet(lambda: net.find_most_likely_lanelet_by_state([tr.state_list[0]]))
+    _quiet(lambda: net.find_lanelet_by_shape(Rectangle(2.0, 1.0, np.array([2.5, 1.5]))))
+    _quiet(lambda: net.map_obstacles_to_lanelets(sc.obstacles))
+    _quiet(lambda: net.filter_obstacles_in_network(sc.obstacles))
+    for l in net.lanelets:
+        _quiet(lambda: l.get_obstacles(sc.obstacles, t))
+        _quiet(lambda: l.dynamic_obstacle_by_time_step(t))
+        _quiet(lambda: l.interpolate_position(2.5))
+        _quiet(lambda: l.orientation_by_position(np.array([2.5, 0.75])))
+        _quiet(lambda: l.contains_points(np.array([[2.5, 0.75]])))
+        _quiet(lambda: l.convert_to_polygon())
+        _quiet(lambda: l.find_lanelet_successors_in_range(net, 20.0))
+        _quiet(lambda: type(l).all_lanelets_by_merging_successors_from_lanelet(l, net))
+    for ts in net.traffic_signs:
+        _quiet(lambda: str(ts))
+    _quiet(lambda: pps.find_planning_problem_by_id(5))
+    for p in pps.planning_problem_dict.values():
+        _quiet(lambda: str(p.goal.state_list[0]))
+        _quiet(lambda: p.goal.state_list[0].attributes)
+
+
 def op_goal_checks(V, sc, pps):
     for p in pps.planning_problem_dict.values():
         for o in sc.dynamic_obstacles:
@@ -297,6 +353,7 @@ def op_pb_export(V, sc, pps):
 
 OPS = [("obstacle occupancy / state / signal queries", op_obstacle_queries), ("occupancy set of the prediction", op_occupancy_set),
        ("scenario-level queries", op_scenario_queries), ("lanelet and traffic-light queries", op_lanelet_queries), ("goal checks", op_goal_checks),
+       ("further obstacle / lanelet / planning-problem queries", op_further_queries),
        ("== and hash", op_eq_hash), ("deepcopy", op_deepcopy), ("XML export", op_xml_export), ("protobuf export", op_pb_export)]
 
 
@@ -316,7 +373,7 @@ class FixedArguments:
         return self._V.int(name, lo, hi)
 
     def choice(self, name, n):
-        if name == "query_point_lanelet":
+        if name in ("query_point_lanelet", "further_time_step"):
             return 1
         return self._V.choice(name, n)
 
